@@ -12,7 +12,9 @@ from harness.util import rel_close
 RULE = ("random definition trees (depth<=8, arbitrary branching, dotted names, indentation width 1-7 chosen per "
         "parent, de-indents over several levels, blank/comment lines; in ~45% of the trees 1-3 nodes are written again "
         "(typed with their keyword incl. every width/sign suffix, or untyped) and must stay one parameter with the "
-        "type of the first occurrence; every literal form: bool, int, float in "
+        "type of the first occurrence; in ~30% of the groups with leaf children a sibling group repeats the child lines "
+        "character by character (same indentation, name, type, value) under another parent; block strings and table rows "
+        "contain lines starting with '#', blank lines, leading blanks and lines that look like DIP syntax; every literal form: bool, int, float in "
         "decimal/scientific notation, bare/quoted/escaped strings, none, inline/quoted/block arrays, block strings, "
         "tables) rendered to DIP text; plus flat line sequences with arbitrary indentation numbers; plus a malformed "
         "stream (impl vs model only). non-trivial = depth>=2 or a de-indent by >=2 levels or an array/block/table; "
@@ -61,10 +63,23 @@ def impl_run(text):
         with DIP() as p:
             p.add_string(text)
             env = p.parse()
-        ty = env.data(format=Format.TYPE)
-        tu = env.data(format=Format.TUPLE)
     except Exception:
         return "err"
+    return read_env(env)
+
+
+def read_env(env):
+    """canonical result of a returned environment; 'envbroken' when parse() returned an environment
+    that cannot be read (a parameter without value object)"""
+    from scinumtools.dip.settings import Format
+    from scinumtools.dip.datatypes import BooleanType, IntegerType, FloatType, StringType, NumberType
+    try:
+        ty = env.data(format=Format.TYPE)
+        if any(v is None for v in ty.values()):
+            return "envbroken"
+        tu = env.data(format=Format.TUPLE)
+    except Exception:
+        return "envbroken"
     out = []
     names = {BooleanType: "bool", IntegerType: "int", FloatType: "float", StringType: "str"}
     if list(ty.keys()) != list(tu.keys()):
@@ -432,7 +447,9 @@ def gen_definition(rng, name, allow_block=True, allow_table=True, ty=None, unit_
         head = sp(rng) + kw + dtext
     elif allow_block and ty == "str" and r < 0.4:  # block string
         n = rng.randint(1, 4)
-        rows = [rng.choice(["Lorem ipsum dolor", "  indented line", "x = 1 # not a comment", "say \"hi\"", "it's", "", "a", "[1,2]", "tail  "]) for _ in range(n)]
+        rows = [rng.choice(["Lorem ipsum dolor", "  indented line", "x = 1 # not a comment", "say \"hi\"", "it's", "", "a", "[1,2]", "tail  ",
+                            "#!/bin/bash", "#SBATCH --nodes=2", "   # indented hash", "#", "a int = 1", "  b float = 2 m", "@end",
+                            "@case true", "!constant", "$unit x = 1 m", "= 3", "{?ref}", "grp"]) for _ in range(n)]
         if all(x.strip() == "" for x in rows):
             rows[0] = "text"
         val = "\n".join(rows)
@@ -488,7 +505,7 @@ def gen_table(rng, name):
             if inner is not None:
                 t, v = gen_array(rng, ty, inner, False)
             elif ty == "str":
-                v = rng.choice(["a", "John", "b c", "John Smith", "x1", "true", "12", "q-r"])
+                v = rng.choice(["a", "John", "b c", "John Smith", "x1", "true", "12", "q-r", "#ff0000", "#", "@end", "!x", "a=1"])
                 t = '"%s"' % v if (" " in v or rng.random() < 0.3) else v
             elif ty == "int":
                 v = rng.choice([0, 1, -3, 20, 2 ** 40, rng.randint(-99, 99)]); t = str(v)
@@ -543,18 +560,42 @@ def gen_tree(rng, max_depth=8, size=None):
             used.update(rels)
             used.add(path)
             ln = Line(depth, nm, nm + head, tail, payload, kind="table" if payload[0] == "table" else "defn")
+            ln.exp = exp
             lines.append(ln)
             for e, r in zip(exp, rels):
                 expected.append([r, e[1], e[2], e[3], e[4], e[5]])
             if meta is not None:
                 rewritable.append((len(expected) - 1, path, meta))
             has_children = payload[0] != "table" and rng.random() < 0.45
+        start = len(lines)
         if has_children and depth < max_depth:
             k = rng.choice([1, 1, 2, 2, 3, 4])
             for _ in range(k):
                 if budget[0] <= 0:
                     break
                 node(depth + 1, prefix + [nm], widths)
+        # a sibling group whose child lines are character-identical (same indentation, name, type, value):
+        # common in real files (`cells int = 64` below both grid.x and grid.y)
+        sub = lines[start:]
+        leafs = [c for i, c in enumerate(sub) if c.depth == depth + 1 and getattr(c, "exp", None) is not None
+                 and (i + 1 == len(sub) or sub[i + 1].depth <= depth + 1)]
+        if leafs and rng.random() < 0.3:
+            nm2 = fresh_name(prefix)
+            path2 = ".".join(prefix + [nm2])
+            if path2 not in used:
+                used.add(path2)
+                g2 = Line(depth, nm2, nm2 + comment(rng, 0.3, tight_ok=False), payload=["group"], kind="group")
+                g2.width_from = ln
+                lines.append(g2)
+                for c in leafs:
+                    rels = [path2 + "." + c.name + ("." + e[0] if e[0] else "") for e in c.exp]
+                    if any(r in used for r in rels) or rng.random() < 0.2:
+                        continue
+                    used.update(rels)
+                    used.add(path2 + "." + c.name)
+                    lines.append(Line(depth + 1, c.name, c.head, list(c.tail_lines), c.payload, kind="clone"))
+                    for e, r in zip(c.exp, rels):
+                        expected.append([r, e[1], e[2], e[3], e[4], e[5]])
 
     while budget[0] > 0:
         node(0, [], None)
@@ -596,7 +637,9 @@ def assign_indents(rng, lines):
             ln.indent = base
         else:
             ln.indent = stack[-1][1] + stack[-1][2]
-        stack.append((ln.depth, ln.indent, rng.randint(1, 7)))
+        src = getattr(ln, "width_from", None)
+        ln.width_used = src.width_used if src is not None else rng.randint(1, 7)
+        stack.append((ln.depth, ln.indent, ln.width_used))
 
 
 def noise_line(rng):
@@ -732,7 +775,8 @@ def flush(ctx, cases, prop="C13", sig_fn=None):
             if c["judge"]:
                 ctx.disagreement(c["stream"], replay, "model does not cover a generated in-domain input")
             continue
-        if not res_eq(impl, model):
+        impl_m = "err" if impl == "envbroken" else impl
+        if not res_eq(impl_m, model):
             ctx.disagreement(c["stream"], dict(replay, impl=jsonable(impl), model=jsonable(model)), first_diff(impl, model))
 
 
@@ -752,6 +796,8 @@ def exact_eq(x, y):
 
 def signature(c, impl, spec):
     """Stable class key of an impl != spec input."""
+    if impl == "envbroken":
+        return "c13:%s:unusable-environment" % c["stream"]
     if isinstance(impl, str) and not isinstance(spec, str):
         return "c13:%s:rejected" % c["stream"]
     if isinstance(spec, str):
@@ -814,7 +860,7 @@ def flat_case(ctx, rng):
 def unit_tokens(text):
     """every token of the text that could be read as a unit (unknown ones are dropped by unit_rows)"""
     import re
-    return set(t for t in re.findall(r"[^\s#=]+", text) if len(t) <= 12)
+    return set(t for t in re.findall(r"[^\s#=]+", text) if len(t) <= 40)
 
 
 def mutate(rng, text):
